@@ -151,3 +151,58 @@ obligation('C04', 'C04-3c Ics20Withdrawal on behalf of a bridge: withdrawal even
 from obligations import c18 as _c18
 obligation('C04', 'C04-2c ICS20 receive to a bridge account: exactly one deposit, of the credited amount, in the bridge\'s own asset, together with the credit')(_c18.c18_3)
 obligation('C04', 'C04-2d ICS20 refund of a rollup withdrawal: exactly one deposit, of the credited amount, in the bridge\'s own asset, together with the credit')(_c18.c18_5)
+
+
+# ----------------------------------------------------------------------------------------------------------------- C04-4
+@obligation('C04', 'C04-4 cache_deposit_event (real body): the deposit is appended to the list of its own rollup id; deposits cached earlier in the block (same or other rollup) are all kept, in order')
+def c04_4(run):
+    import re
+    from mirsym import models as M
+    from mirsym.engine import some, none
+    cfg = {}
+
+    def h_get(ctx):
+        pre = cfg['pre']
+        if pre is None:
+            return [(None, none())]
+        return [(None, some(M.new_map('HashMap<RollupId, Vec<Deposit>>', [(k, M.new_vec('Vec<Deposit>', list(v))) for k, v in pre])))]
+
+    def h_put(ctx):
+        v = ctx.ex.deref_val(ctx.st, ctx.args[2])
+        ctx.st.log.append(('object_put', [(ctx.ex.deref_val(ctx.st, k), [ctx.ex.deref_val(ctx.st, d).attrs.get('tag') for d in ctx.ex.deref_val(ctx.st, x).attrs['items']]) for k, x in v.attrs['items']]))
+        return [(None, ())]
+    hooks = [(re.compile(r'StateRead>::object_get::<HashMap<.*RollupId, Vec<.*Deposit>>>$'), h_get), (re.compile(r'StateWrite>::object_put::<HashMap<.*RollupId, Vec<.*Deposit>>>$'), h_put)]
+    ex, W = A.engine(extra_hooks=hooks)
+    W.m_cache_deposit_event = None; W.m_get_cached_block_deposits = None
+    cands = [n for n in ex.fns if n.endswith('StateWriteExt::cache_deposit_event') and n.startswith('bridge::')]
+    if len(cands) != 1:
+        raise Inconclusive(f'bridge::state_ext::StateWriteExt::cache_deposit_event not found: {cands}')
+    run.bound(cached='nothing cached yet, or one list for the same rollup id, for another rollup id, or for both (one earlier deposit each)')
+    n = 0
+    for shape in ('absent', 'same', 'other', 'both'):
+        rid, oid = z3.BitVec('rollup_id', 256), z3.BitVec('other_rollup_id', 256)
+        def dep(tag, r):
+            d = B.struct(ex, 'astria_core::sequencerblock::v1::block::Deposit', rollup_id=r); d.attrs['tag'] = tag
+            return d
+        cfg['pre'] = {'absent': None, 'same': [(rid, [dep('old-same', rid)])], 'other': [(oid, [dep('old-other', oid)])], 'both': [(oid, [dep('old-other', oid)]), (rid, [dep('old-same', rid)])]}[shape]
+        new = dep('new', rid)
+        st = ex.start(cands[0], [B.cell(Obj('S', kind='cell')), new], world=dict(initial_world()))
+        st.pc.append(rid != oid)
+        for i, p in enumerate(run.explore(ex, st, allow_havoc=(r'^Arguments::|fmt::',))):
+            lab = f'[cached {shape}, path {i}]'
+            if p.kind != 'return':
+                run.prove(f'no panic {lab}', p.pc, z3.BoolVal(False), detail=p.info); continue
+            n += 1
+            puts = [e for e in p.log if e[0] == 'object_put']
+            run.sample({'shape': shape, 'path': i, 'puts': [[t for _, t in pp[1]] for pp in puts]})
+            claim = [z3.BoolVal(len(puts) == 1)]
+            if puts:
+                items = puts[0][1]
+                mine = [tags for k, tags in items if z3.is_expr(k) and str(k) == 'rollup_id']
+                theirs = [tags for k, tags in items if z3.is_expr(k) and str(k) == 'other_rollup_id']
+                want_mine = (['old-same'] if shape in ('same', 'both') else []) + ['new']
+                claim.append(z3.BoolVal(mine == [want_mine] and theirs == ([['old-other']] if shape in ('other', 'both') else []) and len(items) == len(mine) + len(theirs)))
+            run.prove(f'the new deposit is appended under its own rollup id after the earlier ones; every other list is unchanged {lab}', p.pc, z3.And(*claim))
+    if not n:
+        raise Inconclusive('vacuity')
+    run.require_reached(*run.cur.reach)
